@@ -615,4 +615,56 @@ example : PO.run toyOracle (Model.Enc.ACBC.encrypt a128cbcHS256 (List.replicate 
   cbchs_decrypt_encrypt toyOracle a128cbcHS256 (Or.inl rfl) _ _ _ _ rfl rfl (fun x hx => toy_inverse _ x hx)
 
 end CBCHS
+/-! ## Histories: every call equals the specification of its own arguments, whatever happened before
+
+The models have no objects.  `wrapKey`, `unwrapKey`, `encrypt`, `decrypt` are functions of the
+arguments of one call (the "wrapper" is just the fixed prefix of arguments: algorithm, key,
+key_ops flags), the oracle is a function `Query → Wire`, and `PO` carries no state.  Hence the outcome
+of a call inside any sequence of calls is its outcome in isolation — including after failing calls.
+The Go objects (KeyWrapper, enc.Algorithm) may carry caches or counters; that *they* behave like
+these stateless functions is tied to the code by the history stream of the harness. -/
+section History
+
+/-- perform the calls one after the other on the same (stateless) model, collecting every outcome;
+    an error or panic outcome of one call does not stop the history -/
+def runHistory {α : Type} : List (PO α) → PO (List (Outcome α))
+  | [] => pure []
+  | p :: ps => do
+    let r ← PO.attempt p
+    let rs ← runHistory ps
+    pure (r :: rs)
+
+/-- **history_independent.**  In the model, the outcome of every call of a history is the outcome
+    of that call alone. -/
+theorem history_independent {α : Type} (o : Oracle) (calls : List (PO α)) :
+    PO.run o (runHistory calls) = .ok (calls.map (PO.run o)) := by
+  induction calls with
+  | nil => rfl
+  | cons p ps ih => simp [runHistory, ih]
+
+/-- **pbes2_history_eq_spec.**  Any sequence of WrapKey calls on one PBES2 wrapper (algorithm,
+    password), with arbitrary — equal or different — salt inputs and counts: the k-th result is the
+    specification's encrypted key for the k-th call's own (p2s, p2c, cek). -/
+theorem pbes2_history_eq_spec (o : Oracle) (ps : Spec.PBES2.Params)
+    (hps : ps.keyLen = 16 ∨ ps.keyLen = 24 ∨ ps.keyLen = 32) (password : Bytes)
+    (calls : List (Bytes × Int × Bytes)) (h8 : ∀ c ∈ calls, c.2.2.length % 8 = 0) :
+    PO.run o (runHistory (calls.map fun c => Model.KW.PBES2.wrapKey ps true password c.1 c.2.1 c.2.2)) =
+      .ok (calls.map fun c => .ok (Spec.PBES2.encryptKey ps (pbkdf2Fn o) (encFn o) password c.1
+        (if c.2.1 = 0 then 10000 else c.2.1) c.2.2)) := by
+  rw [history_independent, List.map_map]
+  congr 1
+  apply List.map_congr_left
+  intro c hc
+  exact (pbes2_eq_spec o ps hps password c.1 c.2.1).1 c.2.2 (h8 c hc)
+
+/-- non-vacuity: same salt, two different counts, on one wrapper -/
+example (o : Oracle) : PO.run o (runHistory
+      [Model.KW.PBES2.wrapKey Spec.PBES2.hs256a128kw true [1] [9, 9] 2 (List.replicate 16 0),
+       Model.KW.PBES2.wrapKey Spec.PBES2.hs256a128kw true [1] [9, 9] 3 (List.replicate 16 0)]) =
+    .ok [.ok (Spec.PBES2.encryptKey Spec.PBES2.hs256a128kw (pbkdf2Fn o) (encFn o) [1] [9, 9] 2 (List.replicate 16 0)),
+         .ok (Spec.PBES2.encryptKey Spec.PBES2.hs256a128kw (pbkdf2Fn o) (encFn o) [1] [9, 9] 3 (List.replicate 16 0))] :=
+  pbes2_history_eq_spec o _ (Or.inl rfl) [1] [([9, 9], 2, List.replicate 16 0), ([9, 9], 3, List.replicate 16 0)]
+    (by intro c hc; simp at hc; rcases hc with h | h <;> subst h <;> rfl)
+
+end History
 end C12
